@@ -33,6 +33,8 @@ if TYPE_CHECKING:
 
 
 from exabgp.bgp.message.notification import Notify
+from exabgp.bgp.message.open.asn import AS_TRANS
+from exabgp.bgp.message.update.attribute.aggregator import Aggregator
 from exabgp.bgp.message.update.attribute.aspath import CONFED_SEQUENCE, CONFED_SET, SEQUENCE, SET, AS2Path
 from exabgp.bgp.message.update.attribute.attribute import (
     Attribute,
@@ -373,8 +375,11 @@ class AttributeCollection(MutableMapping[int, Attribute]):
         if negotiated.asn4:
             # RFC 6793 4.1: a NEW speaker discards AS4_PATH / AS4_AGGREGATOR received from a NEW speaker
             attributes.pop(Attribute.CODE.AS4_PATH, None)
-        elif Attribute.CODE.AS_PATH in attributes and Attribute.CODE.AS4_PATH in attributes:
-            attributes.merge_attributes()
+        else:
+            if Attribute.CODE.AS4_AGGREGATOR in attributes:
+                attributes.merge_aggregator()
+            if Attribute.CODE.AS_PATH in attributes and Attribute.CODE.AS4_PATH in attributes:
+                attributes.merge_attributes()
 
         if Attribute.CODE.MP_REACH_NLRI not in attributes and Attribute.CODE.MP_UNREACH_NLRI not in attributes:
             cls.previous = data
@@ -573,6 +578,24 @@ class AttributeCollection(MutableMapping[int, Attribute]):
             'parser',
         )
         return left
+
+    def merge_aggregator(self) -> None:
+        """RFC 6793 4.2.3: one aggregator out of AGGREGATOR and AS4_AGGREGATOR.
+
+        AS4_AGGREGATOR is the aggregator when AGGREGATOR carries AS_TRANS.  When it does not,
+        an OLD speaker aggregated after the AS4_ attributes were written, so AS4_AGGREGATOR and
+        AS4_PATH are both stale and MUST be ignored.
+        """
+        as4_aggregator = self.pop(Attribute.CODE.AS4_AGGREGATOR)
+        aggregator = self.get(Attribute.CODE.AGGREGATOR)
+        self._str = ''
+        self._json = ''
+        if not isinstance(aggregator, Aggregator) or not isinstance(as4_aggregator, Aggregator):
+            return
+        if aggregator.asn == AS_TRANS:
+            self[Attribute.CODE.AGGREGATOR] = Aggregator(as4_aggregator._packed, asn4=True)
+        else:
+            self.pop(Attribute.CODE.AS4_PATH, None)
 
     def merge_attributes(self) -> None:
         as2path_attr = self[Attribute.CODE.AS_PATH]
